@@ -30,6 +30,7 @@ def handle (toks : List String) : String :=
   | "C02" :: r => handleC02 r
   | "C12" :: r => handleC12 r
   | "C14" :: r => handleC14 r
+  | "HARNESS-TIMEOUT" :: _ => "returns"
   | _ => "bad-op"
 
 /-- oracle verdict for one `op => observed-output` line -/
@@ -48,6 +49,7 @@ def handleOracle (toks out : List String) : String :=
   | "C12" :: r => oracleLineC12 r out
   | "C14" :: r => oracleLineC14 r out
   | "C18" :: r => oracleLineC18 r out
+  | "HARNESS-TIMEOUT" :: _ => "fail implementation-did-not-return-on-this-case"
   | _ => "bad-op"
 
 def splitArrow (toks : List String) : List String × List String :=
